@@ -487,6 +487,33 @@ def to_gfa2_doc(r, doc):
             items = [x for i, x in enumerate(items) if i % 2 == 1]
             if not unamb or any(x.endswith("-") for x in items):
                 ambiguous.append(rec.pos[0])
+        if len(items) >= 5 and len(items) == 2 * len(steps) + 1 and gen.chance(r, 0.7) and unamb:
+            # a stretch of the walk becomes a nested O group, referenced forwards or reversed; the nested group may
+            # end with an edge (its last segment implied), the list then goes on with that segment
+            nseg = (len(items) + 1) // 2
+            i = r.randrange(nseg - 1)
+            j = r.randint(i + 1, nseg - 1)
+            sub = items[2 * i:2 * j + 1]
+            flip = lambda x: x[:-1] + INV[x[-1]]
+            sname = "n%s" % rec.pos[0]
+            if gen.chance(r, 0.4):
+                sub_items, ref = list(sub), sname + "+"
+                if gen.chance(r, 0.5):
+                    sub_items = sub_items[:-1]  # (ends with an edge)
+            else:
+                sub_items, ref = [flip(x) for x in reversed(sub)], sname + "-"
+                if gen.chance(r, 0.7):
+                    sub_items = sub_items[1:]  # (begins with an edge: reversed, it ends with one)
+            tail = items[2 * j:] if len(sub_items) < len(sub) else items[2 * j + 1:]
+            if sname not in [x[1][0] for x in lines if x[1]] and sname not in slen:
+                lines.append(["O", [sname, " ".join(sub_items)], []])
+                if ref.endswith("+"):
+                    ssegs, ssteps = list(segl[i:j + 1]), list(steps[i:j])
+                else:
+                    ssegs = [flip(x) for x in reversed(segl[i:j + 1])]
+                    ssteps = [M.complement_cigar(ov) for ov in reversed(steps[i:j])]
+                expect.append(("P", sname, tuple(ssegs), canon_steps(ssegs, ssteps), ()))
+                items = items[:2 * i] + [ref] + tail
         lines.append(["O", [rec.pos[0], " ".join(items)], [list(t) for t in rec.tags]])
         expect.append(("P", rec.pos[0], tuple(segl), canon_steps(segl, steps), strip_tags(rec.tags, set())))
     lines += extras
